@@ -19,7 +19,9 @@ LEVEL = "exploration"
 MOD = "mc.props.C13"
 
 ODD_NAMES = [("density", "d"), ("B_x_left", "d"), ("B_y_left", "d"), ("B_z_left", "d"),
-             ("xvar_x", "d"), ("xvar_y", "d"), ("xvar_z", "d"), ("flux", "d"), ("extra_x", "d")]
+             ("xvar_x", "d"), ("xvar_y", "d"), ("xvar_z", "d"), ("flux", "d"), ("extra_x", "d"),
+             # names one of which is the beginning of another: a requested name is an exact name
+             ("pressure", "d"), ("pressure_cr", "d"), ("scalar_1", "d"), ("scalar_10", "d"), ("dens", "d")]
 
 
 def outputs(thorough):
